@@ -263,6 +263,11 @@ class Interp:
         if isinstance(v, Int):
             # an integer is falsy iff it equals the literal 0
             return self.cmp_int(v, Const(0), "!=", node)
+        if isinstance(v, NodeV):
+            # a node id may be any hashable: 0 and "" are falsy
+            return not self.w.choose(("falsy-node-id", v.role))
+        if isinstance(v, Opaque):
+            return self.w.choose(("truthy-opaque", v.tag))
         return truth(v, node)
 
     def cmp_int(self, a, b, op, node=None):
@@ -344,7 +349,9 @@ class Interp:
             self.exec_try(st, env)
         elif isinstance(st, (ast.Import, ast.ImportFrom)):
             for a in st.names:
-                env[(a.asname or a.name).split(".")[0]] = Opaque("module:" + a.name)
+                nm = (a.asname or a.name).split(".")[0]
+                r = self.w.resolve_name(self, a.name, st)
+                env[nm] = r if r is not None else Opaque("module:" + a.name)
         else:
             raise Unsupported(st, "statement kind %s" % type(st).__name__)
 
@@ -463,6 +470,9 @@ class Interp:
                 return Builtin(e.id)
             if e.id in ("ValueError", "KeyError", "TypeError", "Exception", "IndexError"):
                 return TypeV(e.id)
+            r = self.w.resolve_name(self, e.id, e)
+            if r is not None:
+                return r
             raise Unsupported(e, "unbound name")
         if isinstance(e, ast.Attribute):
             obj = self.eval(e.value, env)
@@ -571,12 +581,12 @@ class Interp:
                 isinstance(a, Const) and not isinstance(a.v, (int, float)) or
                 isinstance(b, Const) and not isinstance(b.v, (int, float))):
             return self.cmp_int(a, b, sym, node)
-        if sym in ("==", "!="):
-            r = self.generic_eq(a, b, node)
-            return r if sym == "==" else not r
         r = self.w.compare(self, a, sym, b, node)
         if r is not None:
             return r
+        if sym in ("==", "!="):
+            r = self.generic_eq(a, b, node)
+            return r if sym == "==" else not r
         raise Unsupported(node, "comparison %r %s %r" % (a, sym, b))
 
     def generic_eq(self, a, b, node):
@@ -716,6 +726,9 @@ class Interp:
                 return ListObj(items) if f.name == "list" else TupleV(items)
             if f.name == "dict" and not args and not kwargs:
                 return DictObj()
+            r = self.w.call_builtin(self, f.name, args, kwargs, e)
+            if r is not None:
+                return r
             raise Unsupported(e, "constructor call")
         if isinstance(f, BoundMethod):
             return self.call_method(f, args, kwargs, e)
@@ -754,6 +767,15 @@ class Interp:
                 raise AbstractRaise("StopIteration", node, detail="next() on an exhausted iterator")
             it.pos += 1
             return it.items[it.pos - 1]
+        if name == "enumerate" and 1 <= len(args) <= 2 and isinstance(args[0], (ListObj, TupleV, IterV)):
+            start = 0
+            if len(args) == 2 or "start" in kwargs:
+                sv = args[1] if len(args) == 2 else kwargs["start"]
+                if not (isinstance(sv, Const) and isinstance(sv.v, int)):
+                    raise Unsupported(node, "enumerate start")
+                start = sv.v
+            seq = args[0].drain() if isinstance(args[0], IterV) else list(args[0].items)
+            return ListObj([TupleV([Const(i + start), x]) for i, x in enumerate(seq)])
         if name == "zip" and args and all(isinstance(a, (ListObj, TupleV, IterV)) for a in args):
             seqs = [a.drain() if isinstance(a, IterV) else list(a.items) for a in args]
             return ListObj([TupleV(t) for t in zip(*seqs)])
@@ -790,6 +812,12 @@ class Interp:
                 if k in obj.entries:
                     return obj.entries[k]
                 return args[1] if len(args) == 2 else NONE
+            if name == "items" and not args:
+                return ListObj([TupleV([k, v]) for k, v in obj.entries.items()])
+            if name == "keys" and not args:
+                return ListObj(list(obj.entries.keys()))
+            if name == "values" and not args:
+                return ListObj(list(obj.entries.values()))
             raise Unsupported(node, "dict method %s" % name)
         return self.w.call_method(self, obj, name, args, kwargs, node)
 
